@@ -74,7 +74,7 @@ MapEq(st, ma, mb, i, d) ==   \* same key set, equal values; order does not matte
               IF r = "t" THEN MapEq(st, ma, mb, i + 1, d) ELSE r
 ValEq(st, a, b, d) ==
     IF d = 0 THEN "u"
-    ELSE IF a.t \in {"bot", "estr", "fn", "itr"} \/ b.t \in {"bot", "estr", "fn", "itr"} THEN "u"
+    ELSE IF a.t \in {"bot", "estr", "fn", "itr", "iout"} \/ b.t \in {"bot", "estr", "fn", "itr", "iout"} THEN "u"
     ELSE IF IsNum(a) /\ IsNum(b) THEN     \* NaN: outside the guide (and outside property C14's laws)
         (LET r == NumCmp(a, b) IN IF r = 2 THEN "u" ELSE IF r = 0 THEN "t" ELSE "f")
     ELSE IF a.t # b.t THEN "f"
@@ -101,7 +101,8 @@ RECURSIVE Observable(_, _, _)
 Observable(st, v, d) ==
     IF d = 0 THEN FALSE
     ELSE CASE v.t \in {"null", "bool", "int", "flt", "fsp", "str", "rng"} -> TRUE
-           [] v.t \in {"bot", "estr", "fn", "itr"} -> FALSE
+           [] v.t \in {"bot", "estr", "fn", "itr", "out", "end", "spr"} -> FALSE
+           [] v.t = "iout" -> v.v.t \in {"null", "bool", "int", "flt", "str"}
            [] v.t = "tup" -> \A i \in 1 .. Len(v.v) : Observable(st, v.v[i], d - 1)
            [] v.t = "ref" ->
                 LET o == st[v.v] IN
@@ -125,6 +126,7 @@ Disp(st, v, q) ==
       [] v.t \in {"int", "flt", "fsp"} -> DisplayNum(v)
       [] v.t = "str" -> (IF q THEN "'" \o v.v \o "'" ELSE v.v)
       [] v.t = "rng" -> DisplayRng(v)
+      [] v.t = "iout" -> "IteratorOutput(" \o Disp(st, v.v, FALSE) \o ")"     \* guide: Iterators
       [] v.t = "tup" -> "(" \o DispSeq(st, v.v, 1) \o ")"
       [] v.t = "ref" -> LET o == st[v.v] IN
                         IF o.k = "list" THEN "[" \o DispSeq(st, o.v, 1) \o "]"
@@ -139,15 +141,17 @@ TypeName(c, v) ==
       [] v.t = "rng" -> "Range"
       [] v.t = "fn" -> "Function"
       [] v.t = "itr" -> "Iterator"
+      [] v.t = "iout" -> "IteratorOutput"
       [] v.t = "ref" -> (IF c.store[v.v].k = "list" THEN "List" ELSE "Map")
-      [] v.t = "bot" -> "?"
+      [] v.t \in {"bot", "out", "end", "spr"} -> "?"
 
 (***************************************************************************)
 (* Sub-expressions of the strict node kinds, in evaluation order           *)
 (* (guide: left to right).                                                 *)
 (***************************************************************************)
 StrictKinds == {"bin", "neg", "not", "list", "tuple", "map", "range", "idx", "asg", "opasg", "iasg",
-                "iopasg", "istr", "core", "mcall", "app", "throw", "dot", "dasg", "dopasg", "masg"}
+                "iopasg", "istr", "core", "mcall", "app", "throw", "dot", "dasg", "dopasg", "masg",
+                "yield", "spread", "let"}
 
 Subs(node) ==
     CASE node.k = "bin" -> <<node.a, node.b>>
@@ -156,7 +160,7 @@ Subs(node) ==
       [] node.k = "map" -> node.vs
       [] node.k = "range" -> <<node.a, node.b>>
       [] node.k = "idx" -> <<node.c, node.i>>
-      [] node.k \in {"asg", "opasg", "throw", "masg"} -> <<node.e>>
+      [] node.k \in {"asg", "opasg", "throw", "masg", "yield", "spread", "let"} -> <<node.e>>
       [] node.k \in {"iasg", "iopasg"} -> <<node.c, node.i, node.e>>
       [] node.k = "dot" -> <<node.c>>
       [] node.k \in {"dasg", "dopasg"} -> <<node.c, node.e>>
@@ -290,7 +294,8 @@ MapPut(o, key, v) == LET j == KeyIndex(o.ks, key) IN
 (* Ranges, Unpacking in for loops).                                        *)
 (***************************************************************************)
 MakeIter(c, v) ==
-    CASE v.t = "rng" -> [ok |-> TRUE, it |-> [k |-> "rng", r |-> v, i |-> 1]]
+    CASE v.t = "itr" -> [ok |-> TRUE, it |-> [k |-> "itr", a |-> v.v]]
+      [] v.t = "rng" -> [ok |-> TRUE, it |-> [k |-> "rng", r |-> v, i |-> 1]]
       [] v.t = "tup" -> [ok |-> TRUE, it |-> [k |-> "seq", v |-> v.v, i |-> 1]]
       [] v.t = "str" -> [ok |-> TRUE, it |-> [k |-> "str", v |-> v.v, i |-> 1]]
       [] v.t = "ref" -> [ok |-> TRUE, it |-> [k |-> "ref", a |-> v.v, i |-> 1]]
@@ -384,6 +389,173 @@ CoreCall(c, node, vs) ==
              ELSE IF v.t \in {"itr", "bot", "fn"} THEN Unspec(c, "copy-kind")
              ELSE Rt(c, v))
 
+(***************************************************************************)
+(* Type hints (guide: Type Checks, Special Types).  "y" / "n" / "u".       *)
+(***************************************************************************)
+StripOpt(ty) == IF Len(ty) > 0 /\ SubSeq(ty, Len(ty), Len(ty)) = "?" THEN SubSeq(ty, 1, Len(ty) - 1) ELSE ty
+IsOpt(ty) == Len(ty) > 0 /\ SubSeq(ty, Len(ty), Len(ty)) = "?"
+TypeMatches(c, v, ty0) ==
+    LET ty == StripOpt(ty0) IN
+    IF IsBot(v) THEN "u"
+    ELSE IF IsOpt(ty0) /\ v.t = "null" THEN "y"
+    ELSE IF ty = "Any" THEN "y"
+    ELSE IF v.t = "ref" /\ c.store[v.v].k = "map" /\ c.store[v.v].meta # <<>> THEN "u"
+    ELSE IF ty = "Callable" THEN (IF v.t = "fn" THEN (IF c.store[v.v].node.gen THEN "u" ELSE "y") ELSE "n")
+    ELSE IF ty = "Indexable" THEN
+        (IF v.t \in {"tup", "str", "ref"} THEN "y" ELSE IF v.t \in {"rng", "estr"} THEN "u" ELSE "n")
+    ELSE IF ty = "Iterable" THEN
+        (IF v.t \in {"tup", "str", "ref", "rng", "itr"} THEN "y" ELSE IF v.t = "estr" THEN "u" ELSE "n")
+    ELSE IF v.t = "fn" /\ ty \in {"Function", "Generator"} THEN "u"
+    ELSE IF ty = TypeName(c, v) THEN "y" ELSE "n"
+
+(***************************************************************************)
+(* Patterns (guide: match, Value Unpacking, Unpacking Arguments).          *)
+(*   [p |-> "wild"]  [p |-> "id", n]  [p |-> "lit", v (literal node)]      *)
+(*   [p |-> "typed", n, ty]                                                *)
+(*   [p |-> "tup", xs, rest \in {"none","first","last"}, rn]               *)
+(*   [p |-> "map", ks, ns]                                                 *)
+(* Result [r |-> "y" | "n" | "u", env].                                    *)
+(***************************************************************************)
+LitVal(node) ==
+    CASE node.k = "null" -> VNull
+      [] node.k = "bool" -> VBool(node.v)
+      [] node.k = "int" -> VInt(node.v)
+      [] node.k = "flt" -> VFlt(node.n, node.d)
+      [] node.k = "str" -> VStr(node.v)
+
+RECURSIVE MatchPat(_, _, _, _)
+RECURSIVE MatchSeq(_, _, _, _, _, _)
+MatchSeq(c, pats, vals, off, i, env) ==      \* pats[i] against vals[off + i]
+    IF i > Len(pats) THEN [r |-> "y", env |-> env]
+    ELSE LET m == MatchPat(c, pats[i], vals[off + i], env) IN
+         IF m.r # "y" THEN m ELSE MatchSeq(c, pats, vals, off, i + 1, m.env)
+RECURSIVE MatchKeys(_, _, _, _, _)
+MatchKeys(c, p, o, i, env) ==
+    IF i > Len(p.ks) THEN [r |-> "y", env |-> env]
+    ELSE LET g == MapGet(o, VStr(p.ks[i])) IN
+         IF ~g.ok THEN [r |-> "n", env |-> env] ELSE MatchKeys(c, p, o, i + 1, Bind(env, p.ns[i], g.v))
+MatchPat(c, p, v, env) ==
+    IF IsBot(v) THEN [r |-> "u", env |-> env]
+    ELSE CASE p.p = "wild" -> [r |-> "y", env |-> env]
+      [] p.p = "id" -> [r |-> "y", env |-> Bind(env, p.n, v)]
+      [] p.p = "typed" -> (LET t == TypeMatches(c, v, p.ty) IN
+                           [r |-> t, env |-> IF t = "y" THEN Bind(env, p.n, v) ELSE env])
+      [] p.p = "lit" -> (LET e == ValEq(c.store, LitVal(p.v), v, 6) IN
+                         [r |-> IF e = "t" THEN "y" ELSE IF e = "f" THEN "n" ELSE "u", env |-> env])
+      [] p.p = "tup" ->
+            (IF v.t = "tup" \/ IsList(c, v) THEN
+                LET vals == IF v.t = "tup" THEN v.v ELSE c.store[v.v].v
+                    n == Len(p.xs)  m == Len(vals)
+                    \* a named rest of a tuple is a tuple (guide); of a list: not said
+                    restv(s) == IF v.t = "tup" THEN VTup(s) ELSE VBot
+                IN IF p.rest = "none" THEN
+                      (IF m # n THEN [r |-> "n", env |-> env] ELSE MatchSeq(c, p.xs, vals, 0, 1, env))
+                   ELSE IF m < n THEN [r |-> "n", env |-> env]
+                   ELSE IF p.rest = "last" THEN
+                      (LET r1 == MatchSeq(c, p.xs, vals, 0, 1, env) IN
+                       IF r1.r # "y" \/ p.rn = "" THEN r1
+                       ELSE [r |-> "y", env |-> Bind(r1.env, p.rn, restv(SubSeq(vals, n + 1, m)))])
+                   ELSE
+                      (LET r1 == MatchSeq(c, p.xs, vals, m - n, 1,
+                                          IF p.rn = "" THEN env ELSE Bind(env, p.rn, restv(SubSeq(vals, 1, m - n)))) IN
+                       r1)
+             ELSE IF v.t \in {"null", "bool", "int", "flt", "fsp", "fn"} THEN [r |-> "n", env |-> env]
+             ELSE [r |-> "u", env |-> env])       \* strings, ranges, maps, objects, iterators: not said
+      [] p.p = "map" ->
+            (IF IsMap(c, v) THEN
+                (IF c.store[v.v].meta # <<>> THEN [r |-> "u", env |-> env]
+                 ELSE MatchKeys(c, p, c.store[v.v], 1, env))
+             ELSE IF v.t \in {"estr", "itr"} THEN [r |-> "u", env |-> env]
+             ELSE [r |-> "n", env |-> env])
+
+(***************************************************************************)
+(* Function calls (guide: Functions, Advanced Functions, Generators).      *)
+(***************************************************************************)
+(* Bind positional / default / variadic / unpacked parameters.
+   Result [ok |-> "y", env] or [ok |-> "n", kind] or [ok |-> "u"]. *)
+RECURSIVE BindParams(_, _, _, _, _, _, _)
+BindParams(c, env, params, defs, args, i, di) ==
+    IF i > Len(params) THEN
+        (IF i <= Len(args) THEN [ok |-> "n", kind |-> "too-many"] ELSE [ok |-> "y", env |-> env])
+    ELSE LET p == params[i] IN
+         IF p.kind = "var" THEN
+            [ok |-> "y", env |-> Bind(env, p.n, VTup(IF i <= Len(args) THEN SubSeq(args, i, Len(args)) ELSE <<>>))]
+         ELSE IF i <= Len(args) THEN
+            (IF p.kind = "pat" THEN
+                LET m == MatchPat(c, p.pat, args[i], env) IN
+                IF m.r = "u" THEN [ok |-> "u"]
+                ELSE IF m.r = "n" THEN [ok |-> "n", kind |-> "unpack-mismatch"]
+                ELSE BindParams(c, m.env, params, defs, args, i + 1, di)
+             ELSE IF p.ty # "" /\ TypeMatches(c, args[i], p.ty) # "y" THEN
+                (IF TypeMatches(c, args[i], p.ty) = "u" THEN [ok |-> "u"] ELSE [ok |-> "n", kind |-> "arg-type"])
+             ELSE BindParams(c, Bind(env, p.n, args[i]), params, defs, args, i + 1,
+                             IF p.kind = "def" THEN di + 1 ELSE di))
+         ELSE IF p.kind = "def" THEN
+            BindParams(c, Bind(env, p.n, defs[di]), params, defs, args, i + 1, di + 1)
+         ELSE [ok |-> "n", kind |-> "too-few"]
+
+(* Call a closure; `selfv` is the receiver for instance calls (guide: Maps and Self) or VBot. *)
+CallClosure(c, fv, args, site, selfv) ==
+    LET clo == c.store[fv.v]
+        env0 == IF IsBot(selfv) THEN clo.caps ELSE ("self" :> selfv) @@ clo.caps
+        b == BindParams(c, env0, clo.node.params, clo.defs, args, 1, 1)
+    IN IF b.ok = "u" THEN Unspec(c, "bind-unspec")
+       ELSE IF b.ok = "n" THEN RtErr(c, b.kind)
+       ELSE IF clo.node.gen THEN
+            \* guide: Generators -- calling a generator function creates a new, not yet started generator
+            Rt(Alloc(c, [k |-> "gen", st |-> "new", env |-> b.env, kont |-> <<>>, body |-> clo.node.body,
+                         ret |-> clo.node.ret]),
+               VItr(NewAddr(c)))
+       ELSE Ev([Push(c, [k |-> "call", env |-> c.env, site |-> site, ret |-> clo.node.ret])
+                  EXCEPT !.env = b.env], clo.node.body)
+
+(***************************************************************************)
+(* Iterators (guide: Iterators, Generators).  A consumer pushes a frame    *)
+(* that expects a signal [t |-> "out", v] or [t |-> "end"] and calls Pull. *)
+(***************************************************************************)
+SigOut(v) == [t |-> "out", v |-> v]
+SigEnd    == [t |-> "end"]
+
+RECURSIVE Pull(_, _)
+Pull(c, a) ==
+    LET o == c.store[a] IN
+    CASE o.k = "it" ->
+            (LET r == IterNext(c, o.it) IN
+             IF r.more THEN Rt([c EXCEPT !.store[a].it = r.it], SigOut(r.v)) ELSE Rt(c, SigEnd))
+      [] o.k = "gen" ->
+            (IF o.st = "done" THEN Rt(c, SigEnd)
+             ELSE IF o.st = "run" THEN Unspec(c, "generator-reentered")
+             ELSE LET c1 == [Push(c, [k |-> "genb", a |-> a, env |-> c.env])
+                               EXCEPT !.env = o.env, !.store[a].st = "run"] IN
+                  IF o.st = "new" THEN Ev(c1, o.body)
+                  ELSE Rt([c1 EXCEPT !.kont = o.kont \o @], VBot))     \* value of the `yield` expression: not said
+      [] o.k \in {"each", "keep"} -> Pull(Push(c, [k |-> "adapt", a |-> a]), o.src)
+
+(* Make an iterator object address for an iterable value; [ok, c, a]. *)
+AsIter(c, v) ==
+    IF v.t = "itr" THEN [ok |-> TRUE, c |-> c, a |-> v.v]
+    ELSE LET mi == MakeIter(c, v) IN
+         IF ~mi.ok \/ (v.t = "ref" /\ c.store[v.v].k = "map" /\ c.store[v.v].meta # <<>>) THEN [ok |-> FALSE]
+         ELSE [ok |-> TRUE, c |-> Alloc(c, [k |-> "it", it |-> mi.it]), a |-> NewAddr(c)]
+
+IterMethods == {"next", "each", "keep", "to_tuple", "to_list", "count", "sum", "iter", "fold"}
+
+IterMethod(c, node, recv, args) ==
+    LET m == node.m
+        ai == AsIter(c, recv)
+    IN IF ~ai.ok THEN Unspec(c, "iter-method-receiver")
+       ELSE CASE m = "iter" -> Rt(ai.c, VItr(ai.a))
+              [] m = "next" ->
+                    (IF recv.t # "itr" THEN Unspec(c, "next-on-non-iterator") ELSE Pull(Push(ai.c, [k |-> "nextk"]), ai.a))
+              [] m \in {"each", "keep"} ->
+                    (IF args[1].t # "fn" THEN Unspec(c, "adaptor-functor-kind")
+                     ELSE Rt(Alloc(ai.c, [k |-> m, src |-> ai.a, f |-> args[1]]), VItr(NewAddr(ai.c))))
+              [] m \in {"to_tuple", "to_list", "count", "sum"} ->
+                    Pull(Push(ai.c, [k |-> "collect", m |-> m, acc |-> <<>>, a |-> ai.a]), ai.a)
+              [] m = "fold" ->
+                    (IF args[2].t # "fn" THEN Unspec(c, "fold-functor-kind")
+                     ELSE Pull(Push(ai.c, [k |-> "fold", acc |-> args[1], f |-> args[2], a |-> ai.a, ph |-> "pull"]), ai.a))
+
 (* method calls on containers: node.m with receiver vs[1] and arguments the rest *)
 MethodCall(c, node, vs) ==
     LET m == node.m
@@ -391,6 +563,16 @@ MethodCall(c, node, vs) ==
         args == Tail(vs)
     IN
     IF IsBot(recv) \/ recv.t = "estr" THEN Unspec(c, "bot-receiver")
+    ELSE IF recv.t = "itr" THEN
+        (IF m \in IterMethods THEN IterMethod(c, node, recv, args) ELSE Unspec(c, "iterator-method"))
+    ELSE IF recv.t = "iout" THEN
+        (IF m = "get" THEN Rt(c, recv.v) ELSE Unspec(c, "iout-method"))
+    ELSE IF IsMap(c, recv) /\ c.store[recv.v].meta = <<>> /\ MapGet(c.store[recv.v], VStr(m)).ok THEN
+        \* guide: Maps and Self -- a function stored in a map is called with the map as `self`
+        (LET fv == MapGet(c.store[recv.v], VStr(m)).v IN
+         IF fv.t = "fn" THEN CallClosure(c, fv, args, node.id, recv) ELSE Unspec(c, "map-entry-call-kind"))
+    ELSE IF m \in (IterMethods \ {"to_tuple", "to_list", "next"}) /\ recv.t \in {"ref", "tup", "rng", "str"} THEN
+        IterMethod(c, node, recv, args)
     ELSE IF IsList(c, recv) THEN
         (LET a == recv.v  l == c.store[recv.v].v IN
          CASE m = "push" -> Rt([c EXCEPT !.store[a].v = Append(@, args[1])], recv)
@@ -407,6 +589,7 @@ MethodCall(c, node, vs) ==
                             ELSE IF args[1].v < 0 THEN Unspec(c, "get-negative")
                             ELSE Rt(c, IF args[1].v < Len(l) THEN l[args[1].v + 1] ELSE VNull))
            [] m = "to_tuple" -> Rt(c, VTup(l))
+           [] m = "to_list" -> Rt(Alloc(c, [k |-> "list", v |-> l]), VRef(NewAddr(c)))
            [] m = "reverse" -> Rt([c EXCEPT !.store[a].v = [i \in 1 .. Len(l) |-> l[Len(l) + 1 - i]]], recv)
            [] m = "insert" -> (IF args[1].t # "int" THEN (IF IsBot(args[1]) THEN Unspec(c, "insert-bot")
                                                           ELSE RtErr(c, "insert-type"))
@@ -453,40 +636,23 @@ MethodCall(c, node, vs) ==
            [] m = "contains" -> (LET r == SeqContains(c.store, recv.v, args[1], 1) IN
                                  IF r = "u" THEN Unspec(c, "contains-unspec") ELSE Rt(c, VBool(r = "t")))
            [] m = "to_list" -> Rt(Alloc(c, [k |-> "list", v |-> recv.v]), VRef(NewAddr(c)))
+           [] m = "to_tuple" -> Rt(c, recv)
            [] m = "is_empty" -> Rt(c, VBool(recv.v = <<>>))
            [] m = "get" -> (IF args[1].t # "int" THEN (IF IsBot(args[1]) THEN Unspec(c, "get-bot")
                                                        ELSE RtErr(c, "get-type"))
                             ELSE IF args[1].v < 0 THEN Unspec(c, "get-negative")
                             ELSE Rt(c, IF args[1].v < Len(recv.v) THEN recv.v[args[1].v + 1] ELSE VNull))
            [] OTHER -> Unspec(c, "tuple-method"))
+    ELSE IF recv.t \in {"rng", "str"} /\ m \in {"to_tuple", "to_list"} THEN IterMethod(c, node, recv, args)
     ELSE Unspec(c, "method-receiver")
-
-(***************************************************************************)
-(* Function calls (guide: Functions, Advanced Functions).                  *)
-(***************************************************************************)
-(* Bind positional / default / variadic parameters.  Result [ok, env] or [ok |-> FALSE, kind]. *)
-RECURSIVE BindParams(_, _, _, _, _, _, _)
-BindParams(c, env, params, defs, args, i, di) ==
-    IF i > Len(params) THEN
-        (IF i <= Len(args) THEN [ok |-> FALSE, kind |-> "too-many"] ELSE [ok |-> TRUE, env |-> env])
-    ELSE LET p == params[i] IN
-         IF p.kind = "var" THEN
-            [ok |-> TRUE, env |-> Bind(env, p.n, VTup(IF i <= Len(args) THEN SubSeq(args, i, Len(args)) ELSE <<>>))]
-         ELSE IF i <= Len(args) THEN
-            BindParams(c, Bind(env, p.n, args[i]), params, defs, args, i + 1, IF p.kind = "def" THEN di + 1 ELSE di)
-         ELSE IF p.kind = "def" THEN
-            BindParams(c, Bind(env, p.n, defs[di]), params, defs, args, i + 1, di + 1)
-         ELSE [ok |-> FALSE, kind |-> "too-few"]
-
-CallClosure(c, fv, args, site) ==
-    LET clo == c.store[fv.v]
-        b == BindParams(c, clo.caps, clo.node.params, clo.defs, args, 1, 1)
-    IN IF ~b.ok THEN RtErr(c, b.kind)
-       ELSE Ev([Push(c, [k |-> "call", env |-> c.env, site |-> site]) EXCEPT !.env = b.env], clo.node.body)
 
 (***************************************************************************)
 (* Apply: all operands of a strict node have been evaluated.               *)
 (***************************************************************************)
+RECURSIVE FlattenArgs(_, _)
+FlattenArgs(vs, i) == IF i > Len(vs) THEN <<>>
+                      ELSE (IF vs[i].t = "spr" THEN vs[i].v ELSE <<vs[i]>>) \o FlattenArgs(vs, i + 1)
+
 RECURSIVE ConcatDisp(_, _, _)
 ConcatDisp(st, vs, i) == IF i > Len(vs) THEN "" ELSE Disp(st, vs[i], FALSE) \o ConcatDisp(st, vs, i + 1)
 
@@ -562,9 +728,35 @@ Apply(c, node, vs) ==
       [] node.k = "core" -> CoreCall(c, node, vs)
       [] node.k = "mcall" -> MethodCall(c, node, vs)
       [] node.k = "app" ->
-            (IF vs[1].t = "fn" THEN CallClosure(c, vs[1], Tail(vs), node.id)
-             ELSE IF IsBot(vs[1]) \/ vs[1].t = "ref" THEN Unspec(c, "call-kind")
+            (IF vs[1].t = "fn" THEN CallClosure(c, vs[1], FlattenArgs(Tail(vs), 1), node.id, VBot)
+             ELSE IF IsBot(vs[1]) \/ vs[1].t \in {"ref", "estr"} THEN Unspec(c, "call-kind")
              ELSE RtErr(c, "not-callable"))
+      [] node.k = "let" ->
+            \* guide: Type Checks / let -- a value that does not match the declared type is an error
+            (LET t == TypeMatches(c, vs[1], node.ty) IN
+             IF t = "u" THEN Unspec(c, "let-type-unspec")
+             ELSE IF t = "n" THEN RtErr(c, "let-type")
+             ELSE Rt([c EXCEPT !.env = Bind(@, node.n, vs[1])], vs[1]))
+      [] node.k = "spread" ->
+            \* guide: Packed Call Arguments -- replaced by the output of iterating over the argument
+            (LET el == ElemsOf(c, vs[1]) IN
+             IF ~el.ok \/ ~(vs[1].t \in {"tup", "ref", "rng", "str"}) THEN Unspec(c, "spread-kind")
+             ELSE Rt(c, [t |-> "spr", v |-> el.s]))
+      [] node.k = "yield" ->
+            \* guide: Generators -- the generator is paused each time yield is encountered
+            (LET G == {i \in 1 .. Len(c.kont) : c.kont[i].k = "genb"} IN
+             IF G = {} THEN Unspec(c, "yield-outside-generator")
+             ELSE LET gi == CHOOSE i \in G : \A i2 \in G : i <= i2
+                      gb == c.kont[gi]
+                      g == c.store[gb.a]
+                      tyr == IF g.ret = "" THEN "y" ELSE TypeMatches(c, vs[1], g.ret) IN
+                  IF tyr = "u" THEN Unspec(c, "yield-type-unspec")
+                  ELSE IF tyr = "n" THEN RtErr(c, "yield-type")
+                  ELSE Rt([c EXCEPT !.store[gb.a] = [@ EXCEPT !.st = "susp", !.env = c.env,
+                                                              !.kont = SubSeq(c.kont, 1, gi - 1)],
+                                    !.kont = SubSeq(@, gi + 1, Len(@)),
+                                    !.env = gb.env],
+                          SigOut(vs[1])))
       [] node.k = "throw" ->
             \* guide: throw accepts strings or objects that implement @display
             (IF vs[1].t = "str" THEN Throw(c, vs[1])
@@ -620,25 +812,61 @@ Eval(c, node) ==
                     Rt(Alloc(c, [k |-> "clo", node |-> node, caps |-> caps, defs |-> <<>>]), VFn(NewAddr(c)))
                  ELSE Ev(Push(c, [k |-> "fndefs", node |-> node, done |-> <<>>, todo |-> Tail(dn)]), Head(dn)))
            [] node.k = "try" -> Ev(Push(c, [k |-> "try", node |-> node, ph |-> "body", pend |-> <<>>]), node.b)
+           [] node.k = "match" -> Ev(Push(c, [k |-> "matchs", node |-> node]), node.subj)
 
 (***************************************************************************)
 (* Return: a value arrives at the innermost continuation frame.            *)
 (***************************************************************************)
+(* guide: match -- first arm whose pattern (and guard) matches; no arm => null *)
+RECURSIVE TryArms(_, _, _, _, _)
+TryArms(c, node, v, i, j) ==
+    IF i > Len(node.arms) THEN (IF node.has_else THEN Ev(c, node.e) ELSE Rt(c, VNull))
+    ELSE LET arm == node.arms[i] IN
+         IF j > Len(arm.pats) THEN TryArms(c, node, v, i + 1, 1)
+         ELSE LET r == MatchPat(c, arm.pats[j], v, c.env) IN
+              IF r.r = "u" THEN Unspec(c, "match-unspec")
+              ELSE IF r.r = "n" THEN TryArms(c, node, v, i, j + 1)
+              ELSE IF arm.has_guard THEN
+                  Ev(Push([c EXCEPT !.env = r.env], [k |-> "matchg", node |-> node, v |-> v, i |-> i, j |-> j]),
+                     arm.guard)
+              ELSE Ev([c EXCEPT !.env = r.env], arm.b)
+
+ForBody(c, f, v) ==    \* bind the loop variables to element v and run the body (f not yet pushed)
+    LET node == f.node
+        c1 == IF Len(node.vars) = 1
+              THEN [ok |-> TRUE, env |-> Bind(c.env, node.vars[1], v)]
+              ELSE LET el == ElemsOf(c, v) IN
+                   IF el.ok THEN [ok |-> TRUE, env |-> BindSeq(c.env, node.vars, el.s, 1)] ELSE [ok |-> FALSE]
+        tys == node.tys
+        bad == {i \in 1 .. Len(tys) : tys[i] # "" /\ Has(c1.env, node.vars[i])
+                                       /\ TypeMatches(c, c1.env[node.vars[i]], tys[i]) # "y"}
+    IN IF ~c1.ok THEN Unspec(c, "for-unpack-kind")
+       ELSE IF \E i \in bad : TypeMatches(c, c1.env[node.vars[i]], tys[i]) = "u" THEN Unspec(c, "for-type-unspec")
+       ELSE IF bad # {} THEN RtErr(c, "for-arg-type")
+       ELSE Ev([Push(c, [f EXCEPT !.ph = "body", !.n = @ + 1]) EXCEPT !.env = c1.env], node.b)
+
 LoopNext(c, f) ==     \* next iteration of the loop whose frame f has just been popped from c
     LET node == f.node IN
     CASE node.k \in {"while", "until"} -> Ev(Push(c, [f EXCEPT !.ph = "cond"]), node.c)
       [] node.k = "loop" -> Ev(Push(c, [f EXCEPT !.ph = "body", !.n = @ + 1]), node.b)
+      [] node.k = "for" /\ f.it.k = "itr" -> Pull(Push(c, [f EXCEPT !.ph = "pull"]), f.it.a)
       [] node.k = "for" ->
             (LET r == IterNext(c, f.it) IN
              IF ~r.more THEN Rt(c, IF f.n = 0 THEN VNull ELSE VBot)   \* never ran => null; else unspecified
-             ELSE LET c1 == IF Len(node.vars) = 1
-                            THEN [ok |-> TRUE, env |-> Bind(c.env, node.vars[1], r.v)]
-                            ELSE LET el == ElemsOf(c, r.v) IN
-                                 IF el.ok THEN [ok |-> TRUE, env |-> BindSeq(c.env, node.vars, el.s, 1)]
-                                 ELSE [ok |-> FALSE]
-                  IN IF ~c1.ok THEN Unspec(c, "for-unpack-kind")
-                     ELSE Ev([Push(c, [f EXCEPT !.it = r.it, !.ph = "body", !.n = @ + 1])
-                                EXCEPT !.env = c1.env], node.b))
+             ELSE ForBody(c, [f EXCEPT !.it = r.it], r.v))
+
+RECURSIVE SumSeq(_, _, _, _)
+SumSeq(c, s, i, acc) ==
+    IF i > Len(s) THEN Rt(c, acc)
+    ELSE IF ~(IsNum(s[i])) THEN (IF IsBot(s[i]) \/ s[i].t = "estr" THEN Unspec(c, "sum-bot") ELSE RtErr(c, "sum-type"))
+    ELSE LET r == Arith("+", acc, s[i]) IN IF IsBot(r) THEN Unspec(c, "window") ELSE SumSeq(c, s, i + 1, r)
+
+(* guide: Type Checks / Functions -- `-> T` checks the returned value *)
+CallReturn(c0, f, v) ==
+    LET t == IF f.ret = "" THEN "y" ELSE TypeMatches(c0, v, f.ret) IN
+    IF t = "u" THEN Unspec(c0, "return-type-unspec")
+    ELSE IF t = "n" THEN RtErr([c0 EXCEPT !.env = f.env], "return-type")
+    ELSE Rt([c0 EXCEPT !.env = f.env], v)
 
 Return(c, v) ==
     IF c.kont = <<>> THEN [c EXCEPT !.ctl = [m |-> "done", st |-> "ok", v |-> v]]
@@ -670,6 +898,45 @@ Return(c, v) ==
              ELSE IF f.i < Len(f.node.cs) THEN Ev(Push(c0, [f EXCEPT !.i = @ + 1]), f.node.cs[f.i + 1])
              ELSE IF f.node.has_else THEN Ev(c0, f.node.e)
              ELSE Rt(c0, VNull))
+      [] f.k = "loop" /\ f.ph = "pull" ->
+            (IF v.t = "end" THEN Rt(c0, IF f.n = 0 THEN VNull ELSE VBot)
+             ELSE IF v.t = "out" THEN ForBody(c0, f, v.v) ELSE Unspec(c, "pull-signal"))
+      [] f.k = "nextk" ->
+            (IF v.t = "end" THEN Rt(c0, VNull)
+             ELSE IF v.t = "out" THEN Rt(c0, [t |-> "iout", v |-> v.v]) ELSE Unspec(c, "pull-signal"))
+      [] f.k = "collect" ->
+            (IF v.t = "out" THEN Pull(Push(c0, [f EXCEPT !.acc = Append(@, v.v)]), f.a)
+             ELSE IF v.t # "end" THEN Unspec(c, "pull-signal")
+             ELSE CASE f.m = "to_tuple" -> Rt(c0, VTup(f.acc))
+                    [] f.m = "to_list" -> Rt(Alloc(c0, [k |-> "list", v |-> f.acc]), VRef(NewAddr(c0)))
+                    [] f.m = "count" -> Rt(c0, VInt(Len(f.acc)))
+                    [] f.m = "sum" -> SumSeq(c0, f.acc, 1, VInt(0)))
+      [] f.k = "fold" ->
+            (IF f.ph = "pull" THEN
+                (IF v.t = "end" THEN Rt(c0, f.acc)
+                 ELSE IF v.t = "out" THEN CallClosure(Push(c0, [f EXCEPT !.ph = "call"]), f.f, <<f.acc, v.v>>, 0, VBot)
+                 ELSE Unspec(c, "pull-signal"))
+             ELSE Pull(Push(c0, [f EXCEPT !.acc = v, !.ph = "pull"]), f.a))
+      [] f.k = "adapt" ->
+            (IF v.t = "end" THEN Rt(c0, SigEnd)
+             ELSE IF v.t = "out" THEN
+                CallClosure(Push(c0, [k |-> "adaptf", a |-> f.a, v |-> v.v]), c0.store[f.a].f, <<v.v>>, 0, VBot)
+             ELSE Unspec(c, "pull-signal"))
+      [] f.k = "adaptf" ->
+            (IF c0.store[f.a].k = "each" THEN Rt(c0, SigOut(v))
+             ELSE IF IsBot(v) THEN Unspec(c, "keep-bot")
+             ELSE IF v.t # "bool" THEN Unspec(c, "keep-non-bool")      \* docs: the predicate returns a Bool
+             ELSE IF v.v THEN Rt(c0, SigOut(f.v))
+             ELSE Pull(Push(c0, [k |-> "adapt", a |-> f.a]), c0.store[f.a].src))
+      [] f.k = "genb" ->
+            \* the generator's body has returned: the generator is exhausted
+            Rt([c0 EXCEPT !.store[f.a].st = "done", !.env = f.env], SigEnd)
+      [] f.k = "matchs" -> TryArms(c0, f.node, v, 1, 1)
+      [] f.k = "matchg" ->
+            (IF IsBot(v) THEN Unspec(c, "guard-bot")
+             ELSE IF Truthy(v) THEN Ev(c0, f.node.arms[f.i].b)
+             ELSE IF f.j < Len(f.node.arms[f.i].pats) THEN Unspec(c, "guard-with-alternatives")
+             ELSE TryArms(c0, f.node, f.v, f.i + 1, 1))
       [] f.k = "loop" ->
             (IF f.ph = "cond" THEN
                 (IF IsBot(v) THEN Unspec(c, "loop-cond-bot")
@@ -686,7 +953,7 @@ Return(c, v) ==
                   ELSE LoopNext(c0, [k |-> "loop", node |-> f.node, ph |-> "body", it |-> mi.it, n |-> 0]))
       [] f.k = "brkv" -> [c0 EXCEPT !.ctl = [m |-> "brk", v |-> v]]
       [] f.k = "retv" -> [c0 EXCEPT !.ctl = [m |-> "ret", v |-> v]]
-      [] f.k = "call" -> Rt([c0 EXCEPT !.env = f.env], v)
+      [] f.k = "call" -> CallReturn(c0, f, v)
       [] f.k = "fndefs" ->
             (IF f.todo = <<>> THEN
                 LET node == f.node
@@ -735,9 +1002,13 @@ Unwind(c) ==
         (IF f.node.k = "loop" \/ f.node.k = "for" THEN LoopNext(c0, f)
          ELSE Ev(Push(c0, [f EXCEPT !.ph = "cond"]), f.node.c))
     ELSE IF f.k = "call" THEN
-        (CASE ctl.m = "ret" -> Rt([c0 EXCEPT !.env = f.env], ctl.v)
+        (CASE ctl.m = "ret" -> CallReturn(c0, f, ctl.v)
            [] ctl.m = "thr" -> [c0 EXCEPT !.env = f.env, !.ctl.trace = Append(@, f.site)]
            [] OTHER -> Unspec(c, "loop-control-across-call"))
+    ELSE IF f.k = "genb" THEN
+        (CASE ctl.m = "ret" -> Rt([c0 EXCEPT !.store[f.a].st = "done", !.env = f.env], SigEnd)
+           [] ctl.m = "thr" -> [c0 EXCEPT !.store[f.a].st = "done", !.env = f.env]
+           [] OTHER -> Unspec(c, "loop-control-across-generator"))
     ELSE c0      \* discard the frame and keep unwinding
 
 (***************************************************************************)
